@@ -163,6 +163,59 @@ func main() {
 			}
 			back = b.(leaves.CouplesResult)
 		}()
+		// text format: both coupling matrices are printed with one line per row, every cell
+		func() {
+			defer func() {
+				if r := recover(); r != nil {
+					hv.Fail("couples-text", desc(), fmt.Sprintf("text serialization panicked: %v", r))
+				}
+			}()
+			var tb bytes.Buffer
+			if err := ca.Serialize(res, false, &tb); err != nil {
+				hv.Fail("couples-text", desc(), "text serialization failed: "+err.Error())
+				return
+			}
+			lines := strings.Split(tb.String(), "\n")
+			var blocks [][]string
+			for i, l := range lines {
+				if strings.TrimSpace(l) == "matrix:" {
+					var rows []string
+					for _, r := range lines[i+1:] {
+						if !strings.HasPrefix(r, "      - {") {
+							break
+						}
+						rows = append(rows, strings.TrimSuffix(strings.TrimPrefix(r, "      - {"), "}"))
+					}
+					blocks = append(blocks, rows)
+				}
+			}
+			want := func(m []map[int]int64) []string {
+				var rows []string
+				for _, row := range m {
+					var ks []int
+					for k := range row {
+						ks = append(ks, k)
+					}
+					sort.Ints(ks)
+					var cells []string
+					for _, k := range ks {
+						cells = append(cells, fmt.Sprintf("%d: %d", k, row[k]))
+					}
+					rows = append(rows, strings.Join(cells, ", "))
+				}
+				return rows
+			}
+			if len(blocks) != 2 {
+				hv.Fail("couples-text", desc(), fmt.Sprintf("%d matrix blocks in the text output", len(blocks)))
+				return
+			}
+			for bi, m := range [][]map[int]int64{fm, pm} {
+				w := want(m)
+				if fmt.Sprint(blocks[bi]) != fmt.Sprint(w) && !(len(blocks[bi]) == 0 && len(w) == 0) {
+					hv.Fail("couples-text", desc(), fmt.Sprintf("matrix %d is printed as %d rows %q, the result holds %d rows %q", bi, len(blocks[bi]), blocks[bi], len(w), w))
+				}
+			}
+		}()
 		fmt.Fprintf(wo, "ccsr %s\n", fmtRows(fm))
 		fmt.Fprintf(wo, "ccsr %s\n", fmtRows(pm))
 		if msg != "" {
